@@ -54,8 +54,15 @@ namespace nmtools::index
                 if constexpr (meta::is_resizable_v<result_t>) {
                     res.resize(dim);
                 }
+                // a negative width crops (onnx); a width that crops more than the axis holds has no result
+                bool valid = true;
                 auto shape_pad_impl = [&](auto i){
-                    at(res,i) = at(shape,i) + at(pad_width,i) + at(pad_width,dim+i);
+                    auto dst_i = (nm_index_t)at(shape,i) + (nm_index_t)at(pad_width,i) + (nm_index_t)at(pad_width,dim+i);
+                    if (dst_i < 0) {
+                        valid = false;
+                    } else {
+                        at(res,i) = at(shape,i) + at(pad_width,i) + at(pad_width,dim+i);
+                    }
                 };
                 if constexpr (meta::is_tuple_v<result_t>) {
                     constexpr auto N = meta::len_v<result_t>;
@@ -64,6 +71,9 @@ namespace nmtools::index
                     for (size_t i=0; i<dim; i++) {
                         shape_pad_impl(i);
                     }   
+                }
+                if (!valid) {
+                    return return_t{};
                 }
                 // some operator= not usable in constexpr context
                 // ret = res;
